@@ -1800,6 +1800,7 @@ func RunFrame(frame *py.Frame) (res py.Object, err error) {
 			}
 		}
 		vm.extended = false
+		verifInstr(frame, opcode, arg)
 		err = jumpTable[opcode](&vm, arg)
 		if err != nil {
 			// FIXME shouldn't be doing this - just use err?
